@@ -41,6 +41,9 @@ theorem removeEntry_missing_refused {F : Fault → Prop} (c : Cfg) (v pSect : Na
     Post F c (removeEntry v pSect name) s (fun rc s' => rc = rcError ∧ Untouched s s') := by
   unfold removeEntry
   apply Post.bind; apply Post.getVolCfg
+  apply Post.bind
+  unfold removeEntryUnlink
+  apply Post.bind; apply Post.getVolCfg
   apply Post.bind; apply readEntryBlock_healthy c v pSect parent s hf hpar
   intro s1 hd1 hf1 hm1 hw1
   simp only
@@ -56,6 +59,7 @@ theorem removeEntry_missing_refused {F : Fault → Prop} (c : Cfg) (v pSect : Na
   obtain ⟨ns, entry, upd⟩ := r
   simp only at hnone
   subst hnone
+  apply Post.pure
   exact Post.pure _ _ _ _ ⟨rfl, by rw [hd2, hd1], by rw [hm2, hm1], by rw [hw2, hw1]⟩
 
 /-- **removing a directory that is not empty (or an entry of an unsupported type) fails and changes nothing** -/
@@ -70,6 +74,9 @@ theorem removeEntry_nonempty_refused {F : Fault → Prop} (c : Cfg) (v pSect : N
     Post F c (removeEntry v pSect name) s (fun rc s' => rc = rcError ∧ Untouched s s') := by
   unfold removeEntry
   apply Post.bind; apply Post.getVolCfg
+  apply Post.bind
+  unfold removeEntryUnlink
+  apply Post.bind; apply Post.getVolCfg
   apply Post.bind; apply readEntryBlock_healthy c v pSect parent s hf hpar
   intro s1 hd1 hf1 hm1 hw1
   simp only
@@ -82,9 +89,11 @@ theorem removeEntry_nonempty_refused {F : Fault → Prop} (c : Cfg) (v pSect : N
   simp only
   rcases hbad with ⟨hdir, hne⟩ | ⟨h1, h2⟩
   · rw [if_pos (by simp [hdir, hne])]
+    apply Post.pure
     exact Post.pure _ _ _ _ ⟨rfl, by rw [hd2, hd1], by rw [hm2, hm1], by rw [hw2, hw1]⟩
   · rw [if_neg (by simp [h2])]
     rw [if_pos ⟨h1, h2⟩]
+    apply Post.pure
     exact Post.pure _ _ _ _ ⟨rfl, by rw [hd2, hd1], by rw [hm2, hm1], by rw [hw2, hw1]⟩
 
 /-- **renaming a name that is not in the source directory fails and changes nothing** -/
